@@ -89,6 +89,24 @@ func (propC10) Gen(seed uint64, tier string, idx int) *Plan2 {
 		}
 		return ops
 	}
+	if mode != 0 && idx%7 == 3 {
+		// several writers on ONE endpoint (a periodic round, a recovery re-discovery and a refresh-on-miss can
+		// overlap): whichever listing ends up current, every view has to show that same listing
+		p.Params["same"] = true
+		for t := 0; t < 2+r.n(2); t++ {
+			var ops []Op
+			for i := 1 + r.n(2); i > 0; i-- {
+				if r.n(4) == 0 {
+					ops = append(ops, Op{K: "rm", A: 0})
+				} else {
+					ops = append(ops, Op{K: "reg", A: 0, L: c10List(r), B: int64(r.n(2))})
+				}
+			}
+			p.Tasks = append(p.Tasks, ops)
+		}
+		p.Sub = fmt.Sprintf("concurrent-same-endpoint/unified=%v", unified)
+		return p
+	}
 	if mode == 0 {
 		var ops []Op
 		for i := 2 + r.n(10); i > 0; i-- {
@@ -322,6 +340,39 @@ func (propC10) Exec(p *Plan2, res *Result2) {
 	}
 	if len(res.Violations) > 0 {
 		return
+	}
+	if same, _ := p.Params["same"].(bool); same {
+		// the reference is whichever registered listing the endpoint's own listing shows (it must be the
+		// last listing of one of the writers); all other views are then compared with that one
+		ms, _ := reg.GetModelsForEndpoint(ctx, eps[0].URLString)
+		got := map[string]bool{}
+		for _, m := range ms {
+			if m != nil {
+				got[m.Name] = true
+			}
+		}
+		okList := false
+		var cands []string
+		for _, script := range p.Tasks {
+			for i := len(script) - 1; i >= 0; i-- {
+				if script[i].K == "reg" || script[i].K == "rm" {
+					want := map[string]bool{}
+					for _, n := range script[i].L {
+						want[c10Name(n)] = true
+					}
+					cands = append(cands, setStr(want))
+					if setStr(want) == setStr(got) {
+						okList = true
+					}
+					break
+				}
+			}
+		}
+		if !okList {
+			res.add("C10", "C10/endpoint-listing-is-no-registered-listing", "concurrent registrations for one endpoint: its listing is %s, the writers' last listings are %v; history: %s", setStr(got), cands, strings.Join(res.Hist, " | "))
+			return
+		}
+		ref[0] = got
 	}
 	c10Compare(ctx, reg, eps, ref, unified, res)
 }
